@@ -473,13 +473,20 @@ def glue_contextlib() -> None:
             manager: object = None
             method: str
             arg: Optional[str] = None
-            if hasattr(callback, "__self__"):
+            if hasattr(callback, "__self__") and not (
+                # A builtin function (whose __self__ is its module) or a
+                # bound method of a builtin object that was pushed as an
+                # exit callback is just a callable, unless it's an __exit__
+                isinstance(callback, types.BuiltinFunctionType)
+                and callback.__name__ not in ("__exit__", "__aexit__")
+            ):
                 manager = callback.__self__
                 if (
                     # 3.7 used a wrapper function with a __self__ attribute
                     # for actual __exit__ invocations. Later versions use a method.
                     not isinstance(callback, types.MethodType)
-                    or callback.__func__.__name__ in ("__exit__", "__aexit__")
+                    or getattr(callback.__func__, "__name__", None)
+                    in ("__exit__", "__aexit__")
                 ):
                     # stack.enter_context(some_cm) or stack.push(some_cm)
                     tag = "" if is_sync else "await "
